@@ -5,132 +5,32 @@ package main
 import (
 	"bufio"
 	"bytes"
-	"context"
 	"encoding/binary"
-	"errors"
 	"io"
-
-	"github.com/ipfs/go-cid"
-	"github.com/rpcpool/yellowstone-faithful/blocktimeindex"
-	"github.com/rpcpool/yellowstone-faithful/indexes"
-	splitcarfetcher "github.com/rpcpool/yellowstone-faithful/split-car-fetcher"
 )
-
-// C13 (package main) — the CAR file and the slot-to-blocktime index as the server reads them.
-//
-// Storage model: verifC13File, an io.ReaderAt (+Close) over the complete image whose visible
-// length t is symbolic (0 <= t < len): n = min(len(p), t-off), io.EOF iff n < len(p) (os.File,
-// bytes.Reader); in "mmap" mode an offset beyond the end yields a non-EOF error
-// (golang.org/x/exp/mmap.ReaderAt).
-
-type verifC13File struct {
-	data []byte
-	t    int64
-	mmap bool
-}
-
-var verifC13ErrOffset = errors.New("mmap: invalid ReadAt offset")
-
-func (f *verifC13File) ReadAt(p []byte, off int64) (int, error) {
-	if off < 0 {
-		return 0, verifC13ErrOffset
-	}
-	if off+int64(len(p)) <= f.t { // whole request inside the visible part
-		copy(p, f.data[off:])
-		return len(p), nil
-	}
-	if f.mmap && off > f.t {
-		return 0, verifC13ErrOffset
-	}
-	avail := f.t - off
-	n := int64(verifIteU64(avail > 0, uint64(avail), 0))
-	for i := range p {
-		if j := off + int64(i); j < int64(len(f.data)) {
-			p[i] = byte(verifIteU64(int64(i) < n, uint64(f.data[j]), uint64(p[i])))
-		}
-	}
-	return int(n), io.EOF
-}
-
-func (f *verifC13File) Close() error { return nil }
-
-func verifC13CidBytes(i int) []byte {
-	b := []byte{0x01, 0x71, 0x12, 0x20}
-	for j := 0; j < 32; j++ {
-		b = append(b, byte(0x30+11*i+j))
-	}
-	return b
-}
-
-// verifC13Section encodes one CARv1 section: uvarint(len(cid)+len(data)) | cid | data.
-func verifC13Section(cidBytes, data []byte) []byte {
-	out := binary.AppendUvarint(nil, uint64(len(cidBytes)+len(data)))
-	out = append(out, cidBytes...)
-	return append(out, data...)
-}
-
-type verifC13Node struct {
-	cid       cid.Cid
-	off, size uint64
-	data      []byte
-}
-
-// verifC13CarImage: a CARv1 payload: header section (uvarint length + hl arbitrary bytes), then
-// nodes with arbitrary payload bytes of the given lengths.
-func verifC13CarImage(hl int, lens []int) (img []byte, nodes []verifC13Node) {
-	img = binary.AppendUvarint(nil, uint64(hl))
-	img = append(img, verifBytes("carheader", hl)...)
-	for i, l := range lens {
-		cb := verifC13CidBytes(i)
-		c, err := cid.Cast(cb)
-		verifAssert(err == nil, "C13.car: harness CID does not parse")
-		data := verifBytes("payload", l)
-		sec := verifC13Section(cb, data)
-		nodes = append(nodes, verifC13Node{cid: c, off: uint64(len(img)), size: uint64(len(sec)), data: data})
-		img = append(img, sec...)
-	}
-	return
-}
-
-// verifC13CarOp runs one of the server's CAR read paths for node nd over the reader.
-// op 0: Epoch.GetNodeByOffsetAndSize (remote-reader branch: readNodeFromReaderAtWithOffsetAndSize,
-//       parseNodeFromSection)            -> node payload
-// op 1: Epoch.getNodeSize (remote branch: readNodeSizeFromReaderAtWithOffset) -> section size
-// op 2: Epoch.ReadAtFromCar (remote branch: readSectionFromReaderAt)          -> raw section
-// op 3: readNodeWithKnownSize over bufio.Reader(section of the file from the node's offset): the
-//       body of the local-reader branch of GetNodeByOffsetAndSize (the carv2 data reader is cut)
-func verifC13CarOp(op int, r ReaderAtCloser, fileLen int64, nd verifC13Node) ([]byte, uint64, error) {
-	ep := &Epoch{remoteCarReader: r}
-	ctx := context.Background()
-	switch op {
-	case 0:
-		b, err := ep.GetNodeByOffsetAndSize(ctx, &nd.cid, &indexes.OffsetAndSize{Offset: nd.off, Size: nd.size})
-		return b, 0, err
-	case 1:
-		sz, err := ep.getNodeSize(ctx, nd.off)
-		return nil, sz, err
-	case 2:
-		b, err := ep.ReadAtFromCar(ctx, nd.off, nd.size)
-		return b, 0, err
-	default:
-		dr := io.NewSectionReader(r, 0, fileLen) // data reader of a CARv1 payload of that length
-		dr.Seek(int64(nd.off), io.SeekStart)
-		b, err := readNodeWithKnownSize(bufio.NewReader(dr), &nd.cid, nd.size)
-		return b, 0, err
-	}
-}
 
 // C13.car — every CAR read path on the complete file and on the file cut at a symbolic offset:
 // the cut file yields the same bytes / size or an error.
 func VerifC13Car() {
-	shapes := [][]int{{5, 3}, {1, 12}, {0, 7, 2}}
+	shapes := [][]int{{5, 3}, {1, 12}, {0, 7, 2}, {95, 3}} // {95,3}: first section >= 128 bytes (2-byte length prefix)
 	lens := shapes[verifChoice("shape", verifParam("shapes", 2))]
 	img, nodes := verifC13CarImage(verifParam("hdr", 6), lens)
 	N := int64(len(img))
 	nd := nodes[verifChoice("node", len(nodes))]
 	op := verifChoice("op", 4)
 
-	wantB, wantSz, err := verifC13CarOp(op, &verifC13File{data: img, t: N}, N, nd)
+	run := func(r ReaderAtCloser) ([]byte, uint64, error) {
+		if op == 3 {
+			// readNodeWithKnownSize over bufio.Reader(section of the file from the node's offset): the
+			// body of the local-reader branch of GetNodeByOffsetAndSize (the carv2 data reader is cut)
+			dr := io.NewSectionReader(r, 0, N) // data reader of a CARv1 payload of that length
+			dr.Seek(int64(nd.off), io.SeekStart)
+			b, err := readNodeWithKnownSize(bufio.NewReader(dr), &nd.cid, nd.size)
+			return b, 0, err
+		}
+		return verifC13CarOp(op, r, N, nd)
+	}
+	wantB, wantSz, err := run(&verifC13File{data: img, t: N})
 	if op == 1 && int64(nd.off)+binary.MaxVarintLen64 > N {
 		// the size probe reads 10 bytes: a node closer than that to the end of the complete
 		// file is not answered by the complete file either (not a truncation matter)
@@ -155,7 +55,7 @@ func VerifC13Car() {
 	T := int64(verifU16("T"))
 	verifAssume(T < N)
 	f := &verifC13File{data: img, t: T, mmap: verifChoice("reader", 2) == 1}
-	gotB, gotSz, err := verifC13CarOp(op, f, N, nd)
+	gotB, gotSz, err := run(f)
 	if err != nil {
 		verifAssert(gotB == nil, "C13.car: bytes returned together with an error")
 		verifReach("error")
@@ -163,115 +63,5 @@ func VerifC13Car() {
 		verifAssert(len(gotB) == len(wantB) && bytes.Equal(gotB, wantB) && gotSz == wantSz, "C13.car: truncated CAR answers with different bytes / size")
 		verifReach("same")
 	}
-	verifReach("end")
-}
-
-// C13.car.split — the CAR assembled from pieces (splitcarfetcher.MultiReaderAt over
-// io.SectionReader(piece file, piece header, content size), exactly as NewSplitCarReader builds
-// it; epoch.go hands it *readCloserWrapper values, for which NewSplitCarReader's size checks do
-// not run) with ONE piece file cut short at a symbolic offset: Epoch.GetNodeByOffsetAndSize /
-// ReadAtFromCar / getNodeSize answer the same or fail.
-func VerifC13CarSplit() {
-	lens := []int{4, 3, 5}
-	img, nodes := verifC13CarImage(verifParam("hdr", 6), lens)
-	N := int64(len(img))
-	// piece 0 = original CAR header (in memory, never short); pieces 1.. = content split at node
-	// boundaries k1 (between node 0 and 1) and possibly inside node 1
-	hdrLen := int64(nodes[0].off)
-	splitAt := []int64{int64(nodes[1].off), int64(nodes[1].off) + 9}[verifChoice("split", 2)]
-	const ph = 3 // each piece file starts with its own 3-byte header that is skipped
-	mk := func(content []byte) []byte { return append([]byte{0xC1, 0xC2, 0xC3}, content...) }
-	p1 := mk(img[hdrLen:splitAt])
-	p2 := mk(img[splitAt:])
-	short := 1 + verifChoice("short_piece", 2)
-	T := int64(verifU16("T"))
-	f1 := &verifC13File{data: p1, t: int64(len(p1))}
-	f2 := &verifC13File{data: p2, t: int64(len(p2))}
-	if short == 1 {
-		verifAssume(T < int64(len(p1)))
-		f1.t = T
-	} else {
-		verifAssume(T < int64(len(p2)))
-		f2.t = T
-	}
-	build := func(a, b io.ReaderAt) ReaderAtCloser {
-		readers := []io.ReaderAt{bytes.NewReader(img[:hdrLen]), io.NewSectionReader(a, ph, int64(len(p1)-ph)), io.NewSectionReader(b, ph, int64(len(p2)-ph))}
-		sizes := []int64{hdrLen, int64(len(p1) - ph), int64(len(p2) - ph)}
-		return verifC13RAC{splitcarfetcher.NewMultiReaderAt(readers, sizes)}
-	}
-	nd := nodes[verifChoice("node", len(nodes))]
-	op := verifChoice("op", 3)
-	if op == 1 && int64(nd.off)+binary.MaxVarintLen64 > N {
-		verifReach("end")
-		return
-	}
-	full := build(&verifC13File{data: p1, t: int64(len(p1))}, &verifC13File{data: p2, t: int64(len(p2))})
-	wantB, wantSz, err := verifC13CarOp(op, full, N, nd)
-	verifAssert(err == nil, "C13.car.split: the complete pieces do not answer")
-	if op == 0 {
-		verifAssert(bytes.Equal(wantB, nd.data), "C13.car.split: the complete pieces answer with other bytes")
-	}
-	// known finding (S15, same root cause as C16-short-piece-silent): a short NON-LAST piece
-	verifKnownFinding("C13-car-split-short-piece", short == 1)
-	gotB, gotSz, err := verifC13CarOp(op, build(f1, f2), N, nd)
-	if err != nil {
-		verifReach("error")
-	} else {
-		verifAssert(len(gotB) == len(wantB) && bytes.Equal(gotB, wantB) && gotSz == wantSz, "C13.car.split: CAR with a short piece answers with different bytes / size")
-		verifReach("same")
-	}
-	verifReach("end")
-}
-
-type verifC13RAC struct{ io.ReaderAt }
-
-func (verifC13RAC) Close() error { return nil }
-
-// C13.blocktime.server — the server path of NewEpochFromConfig for the slot-to-blocktime index:
-// ReadAllFromReaderAt(file, <size of the complete index>) followed by blocktimeindex.FromBytes.
-// (The real size is blocktimeindex.DefaultIndexByteSize = 46 + 4*432000; the harness index has a
-// small capacity and passes its own complete size.)
-func VerifC13BlocktimeServer() {
-	capacity := uint64(verifParam("capacity", 3))
-	epoch := uint64(verifChoice("epoch", 2))
-	start := epoch * 432000
-	idx := blocktimeindex.NewIndexer(start, start+431999, capacity)
-	vals := make([]int64, capacity)
-	for i := range vals {
-		vals[i] = int64(verifU32("blocktime"))
-		verifAssert(idx.Set(start+uint64(i), vals[i]) == nil, "C13.blocktime.server: Set failed")
-	}
-	img, err := idx.MarshalBinary()
-	verifAssert(err == nil, "C13.blocktime.server: MarshalBinary failed")
-	N := int64(len(img))
-
-	buf, err := ReadAllFromReaderAt(&verifC13File{data: img, t: N}, uint64(N))
-	verifAssert(err == nil, "C13.blocktime.server: complete file not read")
-	full, err := blocktimeindex.FromBytes(buf)
-	verifAssert(err == nil, "C13.blocktime.server: complete index does not decode")
-
-	T := int64(verifU16("T"))
-	verifAssume(T < N)
-	buf, err = ReadAllFromReaderAt(&verifC13File{data: img, t: T, mmap: verifChoice("reader", 2) == 1}, uint64(N))
-	if err != nil {
-		verifAssert(buf == nil, "C13.blocktime.server: bytes returned together with an error")
-		verifReach("read-error")
-		verifReach("end")
-		return
-	}
-	cut, err := blocktimeindex.FromBytes(buf)
-	if err != nil {
-		verifReach("decode-error")
-		verifReach("end")
-		return
-	}
-	verifAssert(cut.Epoch() == full.Epoch(), "C13.blocktime.server: truncated index loads with another epoch")
-	for i := range vals {
-		got, err := cut.Get(start + uint64(i))
-		if err == nil {
-			verifAssert(got == vals[i], "C13.blocktime.server: truncated index answers a slot with a different block time")
-		}
-	}
-	verifReach("loaded")
 	verifReach("end")
 }
